@@ -200,14 +200,9 @@ def evaluate(case):
     try:
         cv = real_chain(left, right, mc_cfg)
     except Exception as e:  # the statement quantifies over every image pair / configuration of the domain
-        flags = [type(e).__name__, method]
-        if min(Lb.shape) < w:
-            flags.append("image-smaller-than-window")
-        if case.get("band"):
-            flags.append("multiband")
-        if subpix > 1:
-            flags.append("subpix>1")
-        out.append(("C02.total", "-".join(flags), "real chain raised %s: %s" % (type(e).__name__, str(e)[:200]), None))
+        wclass = "%s-%s%s" % (type(e).__name__, method, "-image-smaller-than-window" if min(Lb.shape) < w else "")
+        out.append(("C02.total", wclass, "real chain raised %s: %s  (window %d, subpix %d, %s, image %dx%d)"
+                    % (type(e).__name__, str(e)[:200], w, subpix, "band " + case["band"] if case.get("band") else "mono", Lb.shape[0], Lb.shape[1]), None))
         return out, nfinite
     real = cv["cost_volume"].data
     rdisp = np.asarray(cv.coords["disp"].data, dtype=np.float64)
@@ -308,7 +303,7 @@ def case_key(case):
 def run(tier, seed):
     rec = Recorder()
     rec.functions.update(REAL_FUNCTIONS)
-    budget = 75 if tier == "quick" else 1050
+    budget = 72 if tier == "quick" else 1000  # wall seconds, import of pandora included
     t0 = time.time()
     done = 0
     for case in enumerate_domain(tier, seed):
